@@ -420,6 +420,11 @@ c.ensures = ["[C15] " + SEC, "[C15] len(self._content) >= old(len(self._content)
 c.note = ""
 # a section write in ANSI mode calls add_content: the accounting invariant is a precondition of every public operation
 R.contracts[M_SEC + ":SectionOutput.write"].requires += ["[C15] " + SEC, "[C15] self._terminal.g_width >= 1"]
+R.contracts[M_OUT + ":Output.write_line@SectionOutput"].requires += ["[C15] " + SEC, "[C15] self._terminal.g_width >= 1"]
+R.contracts[M_SEC + ":SectionOutput.overwrite"].requires += ["[C15] " + SEC, "[C15] self._terminal.g_width >= 1"]
+# a full clear keeps the accounting (nothing recorded, no rows); a partial clear(n) does not in general -- known finding
+R.contracts[M_SEC + ":SectionOutput.clear"].ensures.append(
+    "[C15] implies(old(%s) and (lines is None or lines == 0), %s)" % (SEC, SEC))
 R.loop(
     SEC_ADD, 0,
     invariants=[SEC, "len(self._content) >= old(len(self._content)) + 2 * _i"],
